@@ -1,10 +1,11 @@
 (* One time step of the one-site TDVP classes over the Layer-W store (Evo/TDVPStore.v): the trace of Sched/TDVP.v,
    proved schedule-correct for every tree (cache_fresh_universal), is simulated on the store; the invariant between two
-   updates is: store invariant, same tree as at the start, isometry attribute at the recorded centre.  Proofs only. *)
+   updates is: store invariant, same tree as at the start, isometry attribute at the recorded centre.  Every event
+   succeeds; every edge and every open leg keeps its dimension (KEEP mode).  Last part: the tree read off a well-formed store (tree_of) is a legitimate argument.  Proofs only. *)
 From Coq Require Import List Arith Bool Lia Permutation ZArith.
 From PTN Require Import TTN.Store TTN.StoreProofs TTN.Canon TTN.CanonProofs TTN.Inv TTN.InvProofs TTN.InvNode
-  TTN.CanonTree TTN.CanonStep TTN.CanonIso Evo.TDVPStoreEffects.
-From PTN Require Import Tree.RTree Tree.Nav Tree.UpdatePath Tree.UpdatePathProofs Tree.CachePath Sched.TDVP Sched.TDVPProofs Sched.TDVPFreshU Evo.TDVPStore.
+  TTN.InvContract TTN.CanonTree TTN.CanonMore TTN.CanonStep TTN.CanonDist TTN.CanonPath TTN.CanonIso Evo.TDVPStoreEffects.
+From PTN Require Import Tree.RTree Tree.RTreeProofs Tree.Nav Tree.UpdatePath Tree.UpdatePathProofs Tree.CachePath Sched.TDVP Sched.TDVPProofs Sched.TDVPFreshU Evo.TDVPStore.
 Import ListNotations.
 
 (* ==== part 1 ==== *)
@@ -286,6 +287,63 @@ Section Sim.
       destruct (sim_link a b f c c4 s cs4 Hp X Hinv Y) as (Hinv4 & Hs4 & Hp4).
       destruct cs4 as [s4 oc4]. cbn [fst snd] in *. subst oc4. apply (IH c4 c' s4 cs' Hp4 Hrun Hinv4 Hst).
   Qed.
+  (* ---- ... and every event of the trace succeeds on the store ------------------------------------------------ *)
+  Lemma sim_plain_ex e c c1 s :
+    plain e = true -> pend c = None -> exec t c e = Some c1 -> tinv l0 s (centre c) ->
+    exists cs1, ev_step lk tmp (s, Some (centre c)) e = Some cs1.
+  Proof.
+    intros Hpl Hpend Hex [W S I C]. pose proof (exec_sound _ _ _ _ Hex) as Hreq.
+    destruct e; try discriminate Hpl; cbn [ev_step fst snd]; cbn [requires] in Hreq.
+    - destruct Hreq as (Hc & _). subst n. destruct (site_update_some s (centre c) W C) as [s' ->]. cbn. eauto.
+    - destruct Hreq as (Hc & _). subst n. destruct (site_update_some s (centre c) W C) as [s' ->]. cbn. eauto.
+    - destruct Hreq as (Hc & _ & Hab). destruct (sim_adjacent s a b W S Hab) as (na & Ea & Hin & Hb).
+      apply (move_center_some s (centre c) b tmp W (same_tree_None _ _ _ S Ftmp) I C Hb).
+    - destruct Hreq as (Hab & _). destruct (sim_adjacent s n m W S Hab) as (na & Ea & _).
+      destruct (acc_some s n W) as [s' ->]; [apply amem_aget; eauto|]. cbn. eauto.
+    - eauto.
+    - destruct Hreq as (Hc & _). rewrite Hc, Nat.eqb_refl. eauto.
+    - eauto.
+    - eauto.
+  Qed.
+
+  Lemma sim_link_ex a b f c c4 s :
+    pend c = None -> run t c [TDVP.Split a b; Cache a b; Link a b f; Absorb a b] = Some c4 -> tinv l0 s (centre c) ->
+    exists cs4, tdvp_run lk tmp (s, Some (centre c)) [TDVP.Split a b; Cache a b; Link a b f; Absorb a b] = Some cs4.
+  Proof.
+    intros Hpend Hrun [W S I C].
+    apply run_cons_inv in Hrun. destruct Hrun as (c1 & X1 & _). pose proof (exec_sound _ _ _ _ X1) as (Hca & _ & Hab).
+    subst a. destruct (sim_adjacent s (centre c) b W S Hab) as (na & Ea & Hin & Hb).
+    destruct (link_update_some s (centre c) b (lk (centre c) b) na W Ea Hin (same_tree_None _ _ _ S (Flk _ _))) as [s' HL].
+    unfold link_update in HL.
+    destruct (split_site s (centre c) b (lk (centre c) b)) as [s1|] eqn:E1; [|discriminate].
+    destruct (acc s1 (centre c)) as [s2|] eqn:E2; [|discriminate].
+    destruct (site_update s2 (lk (centre c) b)) as [s3|] eqn:E3; [|discriminate].
+    exists (s', Some b). unfold tdvp_run. cbn [fold_left ev_fold ev_step fst snd lift].
+    rewrite E1. cbn [lift fst snd ev_fold ev_step]. rewrite E2. cbn [lift fst snd ev_fold ev_step]. rewrite E3.
+    cbn [lift fst snd ev_fold ev_step]. rewrite HL. reflexivity.
+  Qed.
+
+  Theorem sim_run_ex tr : blocked tr -> forall c c' s,
+    pend c = None -> run t c tr = Some c' -> tinv l0 s (centre c) ->
+    exists cs', tdvp_run lk tmp (s, Some (centre c)) tr = Some cs'.
+  Proof.
+    induction 1 as [|e tr Hpl Hb IH|a b f tr Hb IH]; intros c c' s Hp Hrun Hinv.
+    - unfold tdvp_run. cbn. eauto.
+    - apply run_cons_inv in Hrun. destruct Hrun as (c1 & X1 & Hrun).
+      destruct (sim_plain_ex e c c1 s Hpl Hp X1 Hinv) as [cs1 Y1].
+      destruct (sim_plain e c c1 s cs1 Hpl Hp X1 Hinv Y1) as (Hinv1 & Hs1 & Hp1).
+      destruct cs1 as [s1 oc1]. cbn [fst snd] in *. subst oc1.
+      destruct (IH c1 c' s1 Hp1 Hrun Hinv1) as [cs' Hst]. exists cs'.
+      unfold tdvp_run in *. cbn [fold_left ev_fold]. rewrite Y1. exact Hst.
+    - change (TDVP.Split a b :: Cache a b :: Link a b f :: Absorb a b :: tr)
+        with ([TDVP.Split a b; Cache a b; Link a b f; Absorb a b] ++ tr) in Hrun |- *.
+      apply run_app_inv in Hrun. destruct Hrun as (c4 & X & Hrun).
+      destruct (sim_link_ex a b f c c4 s Hp X Hinv) as [cs4 Y].
+      destruct (sim_link a b f c c4 s cs4 Hp X Hinv Y) as (Hinv4 & Hs4 & Hp4).
+      destruct cs4 as [s4 oc4]. cbn [fst snd] in *. subst oc4.
+      destruct (IH c4 c' s4 Hp4 Hrun Hinv4) as [cs' Hst]. exists cs'.
+      unfold tdvp_run in *. rewrite fold_left_app, Y. exact Hst.
+  Qed.
 End Sim.
 
 (* ==== part 3 ==== *)
@@ -364,5 +422,387 @@ Proof.
   intros Hw Hs M Wb Hu Hiso Ft Fl H. unfold tdvp2_step_t in H.
   destruct (cache_fresh_universal t Hw Hs) as (_ & (tr & Htr & Hok) & _). rewrite Htr in H.
   apply (step_sound lk tmp t tr s u rest cs' (blocked_trace2 t tr Htr) Hok M Wb Hu (first_in_ids t u rest Hw Hu) Hiso Ft Fl H).
+Qed.
+
+(* ---- the step succeeds ---------------------------------------------------------------------------------------- *)
+Lemma step_runs lk tmp t tr s u rest :
+  blocked tr -> sched_ok t tr ->
+  tmatch t (nodes s) -> wfb s = true -> update_path t = Some (u :: rest) -> In u (ids t) ->
+  iso_check (s, Some u) = true ->
+  amem tmp (nodes s) = false -> (forall a b, amem (lk a b) (nodes s) = false) ->
+  exists cs', tdvp_run lk tmp (s, Some u) tr = Some cs'.
+Proof.
+  intros Hb Hok M Wb Hu Hin Hiso Ft Fl.
+  destruct (sched_ok_start t tr Hok) as (u' & l' & c0 & c1 & Hu' & C0 & P0 & R & C1 & P1).
+  rewrite Hu in Hu'. injection Hu' as <- <-.
+  pose proof (wfb_wf s Wb) as W.
+  assert (Hinv : tinv (nodes s) s (centre c0)).
+  { rewrite C0. constructor; auto; [apply same_tree_refl|]. apply amem_true. apply (proj2 M). exact Hin. }
+  rewrite <- C0.
+  apply (sim_run_ex t (nodes s) lk tmp M (amem_false_None _ _ Ft) (fun a b => amem_false_None _ _ (Fl a b)) tr Hb c0 c1 s P0 R Hinv).
+Qed.
+
+Definition step_post (t : rtree) (s : store) (u : id) (cs' : cstore) : Prop :=
+  wfb (fst cs') = true /\ same_tree (nodes s) (nodes (fst cs')) /\ root (fst cs') = root s /\
+  snd cs' = Some u /\ iso_check cs' = true /\ tmatch t (nodes (fst cs')).
+
+Theorem tdvp1_step_t_ok lk tmp t s u rest :
+  NoDup (ids t) -> 2 <= size t -> tmatch t (nodes s) -> wfb s = true -> update_path t = Some (u :: rest) ->
+  iso_check (s, Some u) = true ->
+  amem tmp (nodes s) = false -> (forall a b, amem (lk a b) (nodes s) = false) ->
+  exists cs', tdvp1_step_t lk tmp t (s, Some u) = Some cs' /\ step_post t s u cs'.
+Proof.
+  intros Hw Hs M Wb Hu Hiso Ft Fl.
+  destruct (cache_fresh_universal t Hw Hs) as ((tr & Htr & Hok) & _).
+  destruct (step_runs lk tmp t tr s u rest (blocked_trace1 t tr Htr) Hok M Wb Hu (first_in_ids t u rest Hw Hu) Hiso Ft Fl) as [cs' H].
+  exists cs'. assert (H' : tdvp1_step_t lk tmp t (s, Some u) = Some cs') by (unfold tdvp1_step_t; rewrite Htr; exact H).
+  split; [exact H'|]. apply (tdvp1_step_t_sound lk tmp t s u rest cs'); assumption.
+Qed.
+
+Theorem tdvp2_step_t_ok lk tmp t s u rest :
+  NoDup (ids t) -> 2 <= size t -> tmatch t (nodes s) -> wfb s = true -> update_path t = Some (u :: rest) ->
+  iso_check (s, Some u) = true ->
+  amem tmp (nodes s) = false -> (forall a b, amem (lk a b) (nodes s) = false) ->
+  exists cs', tdvp2_step_t lk tmp t (s, Some u) = Some cs' /\ step_post t s u cs'.
+Proof.
+  intros Hw Hs M Wb Hu Hiso Ft Fl.
+  destruct (cache_fresh_universal t Hw Hs) as (_ & (tr & Htr & Hok) & _).
+  destruct (step_runs lk tmp t tr s u rest (blocked_trace2 t tr Htr) Hok M Wb Hu (first_in_ids t u rest Hw Hu) Hiso Ft Fl) as [cs' H].
+  exists cs'. assert (H' : tdvp2_step_t lk tmp t (s, Some u) = Some cs') by (unfold tdvp2_step_t; rewrite Htr; exact H).
+  split; [exact H'|]. apply (tdvp2_step_t_sound lk tmp t s u rest cs'); assumption.
+Qed.
+
+(* any number of consecutive steps (the paths are those of the initial tree; the store's child order drifts) *)
+Fixpoint iter_step (f : cstore -> option cstore) (k : nat) (cs : cstore) : option cstore :=
+  match k with O => Some cs | S k' => match f cs with Some cs' => iter_step f k' cs' | None => None end end.
+
+Lemma same_tree_amem_false l l' k : same_tree l l' -> amem k l = false -> amem k l' = false.
+Proof.
+  intros S H. destruct (amem k l') eqn:E; [|reflexivity]. apply (same_tree_amem _ _ _ (same_tree_sym _ _ S)) in E. congruence.
+Qed.
+
+Theorem tdvp_steps_ok (first_order : bool) lk tmp t u rest : NoDup (ids t) -> 2 <= size t -> update_path t = Some (u :: rest) ->
+  forall k s, tmatch t (nodes s) -> wfb s = true -> iso_check (s, Some u) = true ->
+  amem tmp (nodes s) = false -> (forall a b, amem (lk a b) (nodes s) = false) ->
+  exists cs', iter_step (if first_order then tdvp1_step_t lk tmp t else tdvp2_step_t lk tmp t) k (s, Some u) = Some cs' /\
+              step_post t s u cs'.
+Proof.
+  intros Hw Hs Hu. induction k as [|k IH]; intros s M Wb Hiso Ft Fl.
+  - exists (s, Some u). split; [reflexivity|]. unfold step_post. cbn. repeat split; auto; try apply same_tree_refl; apply M.
+  - assert (Hstep : exists cs1, (if first_order then tdvp1_step_t lk tmp t else tdvp2_step_t lk tmp t) (s, Some u) = Some cs1 /\ step_post t s u cs1).
+    { destruct first_order; [apply (tdvp1_step_t_ok lk tmp t s u rest)|apply (tdvp2_step_t_ok lk tmp t s u rest)]; assumption. }
+    destruct Hstep as ([s1 oc] & E1 & W1 & S1 & R1 & C1 & I1 & M1). cbn [fst snd] in *. subst oc.
+    destruct (IH s1 M1 W1 I1 (same_tree_amem_false _ _ _ S1 Ft) (fun a b => same_tree_amem_false _ _ _ S1 (Fl a b)))
+      as (cs' & E' & W' & S' & R' & C' & I' & M').
+    exists cs'. split; [cbn [iter_step]; rewrite E1; exact E'|].
+    unfold step_post. split; [exact W'|]. split; [exact (same_tree_trans _ _ _ S1 S')|]. split; [congruence|]. auto.
+Qed.
+
+(* ==== part 4 ==== *)
+(* ---- the tree read off a well-formed store ------------------------------------------------------------------- *)
+Inductive ancr (l : list (id * node)) (a : id) : id -> Prop :=
+| ancr_refl : ancr l a a
+| ancr_step x nx p : aget x l = Some nx -> parent nx = Some p -> ancr l a p -> ancr l a x.
+
+Lemma ancr_trans l a b x : ancr l a b -> ancr l b x -> ancr l a x.
+Proof. intros Hab Hbx. induction Hbx; [exact Hab|]. eapply ancr_step; eauto. Qed.
+
+Lemma ancr_rank l d a x : ranked l d -> ancr l a x -> d a <= d x.
+Proof. intros R H. induction H; [lia|]. pose proof (R _ _ _ H H0). lia. Qed.
+
+Lemma ancr_linear l a b x : ancr l a x -> ancr l b x -> ancr l a b \/ ancr l b a.
+Proof.
+  intros Ha. revert b. induction Ha as [|x nx p E P Ha IH]; intros b Hb; [right; exact Hb|].
+  inversion Hb as [|x' nx' p' E' P' Hb']; subst.
+  - left. eapply ancr_step; eauto.
+  - rewrite E in E'. injection E' as <-. rewrite P in P'. injection P' as <-. apply IH. exact Hb'.
+Qed.
+
+Lemma flat_map_map {A B C} (g : A -> B) (h : B -> list C) l : flat_map h (map g l) = flat_map (fun x => h (g x)) l.
+Proof. induction l as [|x l IH]; cbn; [reflexivity|]. rewrite IH. reflexivity. Qed.
+
+Lemma ids_tree_rec_S f l k n : aget k l = Some n ->
+  ids (tree_rec (S f) l k) = k :: flat_map (fun c => ids (tree_rec f l c)) (children n).
+Proof. intros E. cbn. rewrite E. cbn. rewrite flat_map_map. reflexivity. Qed.
+
+Lemma edges_tree_rec_S f l k n : aget k l = Some n ->
+  edges (tree_rec (S f) l k) = map (fun c => (k, c)) (children n) ++ flat_map (fun c => edges (tree_rec f l c)) (children n).
+Proof.
+  intros E. cbn. rewrite E. cbn. rewrite map_map, flat_map_map. f_equal. apply map_ext. intros c. destruct f; cbn; [reflexivity|].
+  destruct (aget c l); reflexivity.
+Qed.
+
+Section TreeOf.
+  Variable l : list (id * node).
+  Hypothesis T : tstruct l.
+
+  Lemma ids_anc f : forall k x, In x (ids (tree_rec f l k)) -> ancr l k x.
+  Proof.
+    induction f as [|f IH]; intros k x H; [cbn in H; destruct H as [<-|[]]; constructor|].
+    destruct (aget k l) as [n|] eqn:E.
+    - rewrite (ids_tree_rec_S f l k n E) in H. destruct H as [<-|H]; [constructor|].
+      apply in_flat_map in H. destruct H as (c & Hc & Hx).
+      destruct (ts_ch _ T k n c E Hc) as (cn & Ec & Pc).
+      apply (ancr_trans l k c x); [|apply IH; exact Hx]. eapply ancr_step; eauto. constructor.
+    - cbn in H. rewrite E in H. destruct H as [<-|[]]. constructor.
+  Qed.
+
+  Lemma ids_keys f : forall k x, In k (akeys l) -> In x (ids (tree_rec f l k)) -> In x (akeys l).
+  Proof.
+    induction f as [|f IH]; intros k x Hk H; [cbn in H; destruct H as [<-|[]]; exact Hk|].
+    destruct (aget k l) as [n|] eqn:E.
+    - rewrite (ids_tree_rec_S f l k n E) in H. destruct H as [<-|H]; [exact Hk|].
+      apply in_flat_map in H. destruct H as (c & Hc & Hx).
+      destruct (ts_ch _ T k n c E Hc) as (cn & Ec & Pc). apply (IH c x); [eapply aget_Some_keys; eauto|exact Hx].
+    - cbn in H. rewrite E in H. destruct H as [<-|[]]. exact Hk.
+  Qed.
+
+  Lemma ids_nodup f : forall k, NoDup (ids (tree_rec f l k)).
+  Proof.
+    destruct (ts_ranked _ T) as [d R].
+    induction f as [|f IH]; intros k; [cbn; constructor; [intros []|constructor]|].
+    destruct (aget k l) as [n|] eqn:E; [|cbn; rewrite E; cbn; constructor; [intros []|constructor]].
+    rewrite (ids_tree_rec_S f l k n E). constructor.
+    - intros H. apply in_flat_map in H. destruct H as (c & Hc & Hx).
+      destruct (ts_ch _ T k n c E Hc) as (cn & Ec & Pc). pose proof (ancr_rank l d c k R (ids_anc f c k Hx)). pose proof (R _ _ _ Ec Pc). lia.
+    - apply NoDup_flat_map_disj; [apply (ts_chnd _ T k n E)|intros c _; apply IH|].
+      intros c1 c2 z H1 H2 Z1 Z2. destruct (Nat.eq_dec c1 c2) as [|Hne]; [assumption|exfalso].
+      destruct (ts_ch _ T k n c1 E H1) as (n1 & E1 & P1). destruct (ts_ch _ T k n c2 E H2) as (n2 & E2 & P2).
+      assert (Hcase : forall u v nu nv, aget u l = Some nu -> parent nu = Some k -> aget v l = Some nv -> parent nv = Some k ->
+                        u <> v -> ancr l u v -> False).
+      { intros u v nu nv Eu Pu Ev Pv Huv Hanc. inversion Hanc as [|x' nx' p' E' P' H']; subst; [congruence|].
+        rewrite Ev in E'. injection E' as <-. rewrite Pv in P'. injection P' as <-.
+        pose proof (ancr_rank l d u k R H'). pose proof (R _ _ _ Eu Pu). lia. }
+      destruct (ancr_linear l c1 c2 z (ids_anc f c1 z Z1) (ids_anc f c2 z Z2)) as [H|H].
+      + apply (Hcase c1 c2 n1 n2 E1 P1 E2 P2 Hne H).
+      + apply (Hcase c2 c1 n2 n1 E2 P2 E1 P1 (not_eq_sym Hne) H).
+  Qed.
+
+  Lemma edges_sound f : forall k a b, In (a, b) (edges (tree_rec f l k)) -> exists n, aget b l = Some n /\ parent n = Some a.
+  Proof.
+    induction f as [|f IH]; intros k a b H; [cbn in H; destruct H|].
+    destruct (aget k l) as [n|] eqn:E; [|cbn in H; rewrite E in H; destruct H].
+    rewrite (edges_tree_rec_S f l k n E) in H. apply in_app_or in H. destruct H as [H|H].
+    - apply in_map_iff in H. destruct H as (c & [= <- <-] & Hc). apply (ts_ch _ T k n c E Hc).
+    - apply in_flat_map in H. destruct H as (c & Hc & Hx). apply (IH c a b Hx).
+  Qed.
+End TreeOf.
+
+(* a node other than the parentless one sits below it: the parentless node has a child *)
+Lemma climbs_root_child l r : (forall k n, aget k l = Some n -> parent n = None -> k = r) ->
+  forall f k, climbs l f k = true -> k <> r -> exists c cn, aget c l = Some cn /\ parent cn = Some r.
+Proof.
+  intros Hu. induction f as [|f IH]; intros k H Hk; [discriminate|]. cbn in H.
+  destruct (aget k l) as [n|] eqn:E; [|discriminate]. destruct (parent n) as [p|] eqn:P.
+  - destruct (Nat.eq_dec p r) as [->|Hp]; [eauto|]. apply (IH p H Hp).
+  - exfalso. apply Hk. apply (Hu k n E P).
+Qed.
+
+Theorem tree_of_ok s : wfb s = true -> 2 <= length (nodes s) ->
+  exists t, tree_of s = Some t /\ NoDup (ids t) /\ 2 <= size t /\ tmatch t (nodes s).
+Proof.
+  intros Wb H2. pose proof (wfb_wf s Wb) as W. pose proof (wf_tstruct s W) as T.
+  destruct (wf_root _ W) as (r & rn & Er & En & Pr & Hu). unfold tree_of. rewrite Er.
+  exists (tree_rec (length (nodes s)) (nodes s) r). split; [reflexivity|].
+  split; [apply ids_nodup; exact T|]. split.
+  - (* the root has a child *)
+    assert (Hk : exists k, In k (akeys (nodes s)) /\ k <> r).
+    { destruct (nodes s) as [|[k1 n1] [|[k2 n2] rest]] eqn:El; cbn in H2; try lia.
+      pose proof (wf_nd _ W) as Hnd. rewrite El in Hnd. cbn in Hnd. inversion Hnd as [|? ? Hni _]; subst.
+      destruct (Nat.eq_dec k1 r) as [->|Hk1].
+      - exists k2. split; [right; left; reflexivity|]. intros ->. apply Hni. left. reflexivity.
+      - exists k1. split; [left; reflexivity|exact Hk1]. }
+    destruct Hk as (k & Hk & Hkr). destruct (ts_ranked _ T) as [d R].
+    pose proof (ranked_climbs (nodes s) d k R (ts_parents_closed _ T) Hk) as Hcl.
+    destruct (climbs_root_child (nodes s) r Hu _ k Hcl Hkr) as (c & cn & Ec & Pc).
+    destruct (ts_par _ T c cn r Ec Pc) as (rn' & En' & Hin). rewrite En in En'. injection En' as <-.
+    rewrite size_length_ids. destruct (length (nodes s)) as [|f] eqn:Ef; [lia|].
+    rewrite (ids_tree_rec_S f (nodes s) r rn En). cbn [length].
+    destruct (children rn) as [|c0 chs]; [destruct Hin|]. cbn [flat_map]. rewrite app_length.
+    destruct f; cbn; [lia|]. destruct (aget c0 (nodes s)); cbn; lia.
+  - split.
+    + apply edges_sound. exact T.
+    + intros k Hk. apply (ids_keys (nodes s) T (length (nodes s)) r k); [eapply aget_Some_keys; eauto|exact Hk].
+Qed.
+
+(* ---- the steps with the tree read off the store itself --------------------------------------------------------- *)
+Theorem tdvp1_step_ok lk tmp s t u :
+  wfb s = true -> 2 <= length (nodes s) -> tree_of s = Some t -> first_of t = Some u ->
+  iso_check (s, Some u) = true -> amem tmp (nodes s) = false -> (forall a b, amem (lk a b) (nodes s) = false) ->
+  exists cs', tdvp1_step lk tmp (s, Some u) = Some cs' /\ step_post t s u cs'.
+Proof.
+  intros Wb H2 Ht Hf Hiso Ft Fl. destruct (tree_of_ok s Wb H2) as (t' & Ht' & Hw & Hs & M).
+  rewrite Ht in Ht'. injection Ht' as <-. unfold first_of in Hf.
+  destruct (update_path t) as [[|u' rest]|] eqn:Hu; try discriminate. injection Hf as ->.
+  unfold tdvp1_step. cbn [fst]. rewrite Ht. apply (tdvp1_step_t_ok lk tmp t s u rest); assumption.
+Qed.
+
+Theorem tdvp2_step_ok lk tmp s t u :
+  wfb s = true -> 2 <= length (nodes s) -> tree_of s = Some t -> first_of t = Some u ->
+  iso_check (s, Some u) = true -> amem tmp (nodes s) = false -> (forall a b, amem (lk a b) (nodes s) = false) ->
+  exists cs', tdvp2_step lk tmp (s, Some u) = Some cs' /\ step_post t s u cs'.
+Proof.
+  intros Wb H2 Ht Hf Hiso Ft Fl. destruct (tree_of_ok s Wb H2) as (t' & Ht' & Hw & Hs & M).
+  rewrite Ht in Ht'. injection Ht' as <-. unfold first_of in Hf.
+  destruct (update_path t) as [[|u' rest]|] eqn:Hu; try discriminate. injection Hf as ->.
+  unfold tdvp2_step. cbn [fst]. rewrite Ht. apply (tdvp2_step_t_ok lk tmp t s u rest); assumption.
+Qed.
+
+(* ==== part 5 ==== *)
+(* ---- tensor shapes along the trace ---------------------------------------------------------------------------- *)
+Section SimDims.
+  Variables (t : rtree) (l0 : list (id * node)) (lk : id -> id -> id) (tmp : id).
+  Hypothesis M : tmatch t l0.
+  Hypothesis Ftmp : aget tmp l0 = None.
+  Hypothesis Flk : forall a b, aget (lk a b) l0 = None.
+
+  Lemma dims_plain e c c1 s cs1 :
+    plain e = true -> pend c = None -> exec t c e = Some c1 -> tinv l0 s (centre c) ->
+    ev_step lk tmp (s, Some (centre c)) e = Some cs1 -> dims_kept s (fst cs1).
+  Proof.
+    intros Hpl Hpend Hex [W S I C] Hst.
+    destruct e; try discriminate Hpl; cbn [ev_step fst snd] in Hst.
+    - apply lift_Some in Hst. destruct Hst as (s' & Hs & ->). cbn [fst]. eapply site_update_dims_kept; eauto.
+    - apply lift_Some in Hst. destruct Hst as (s' & Hs & ->). cbn [fst]. eapply site_update_dims_kept; eauto.
+    - apply (move_center_dims_kept s (centre c) b tmp cs1 W (same_tree_None _ _ _ S Ftmp) I Hst).
+    - apply lift_Some in Hst. destruct Hst as (s' & Hs & ->). cbn [fst]. eapply acc_dims_kept; eauto.
+    - injection Hst as <-. apply dims_kept_refl.
+    - destruct (Nat.eqb (centre c) n); [|discriminate]. injection Hst as <-. apply dims_kept_refl.
+    - injection Hst as <-. apply dims_kept_refl.
+    - injection Hst as <-. apply dims_kept_refl.
+  Qed.
+
+  Lemma dims_link a b f c c4 s cs4 :
+    pend c = None -> run t c [TDVP.Split a b; Cache a b; Link a b f; Absorb a b] = Some c4 -> tinv l0 s (centre c) ->
+    tdvp_run lk tmp (s, Some (centre c)) [TDVP.Split a b; Cache a b; Link a b f; Absorb a b] = Some cs4 ->
+    dims_kept s (fst cs4).
+  Proof.
+    intros Hpend Hrun [W S I C] Hst.
+    apply run_cons_inv in Hrun. destruct Hrun as (c1 & X1 & _). pose proof (exec_sound _ _ _ _ X1) as (Hca & _ & Hab).
+    apply tdvp_run_cons in Hst. destruct Hst as (cs1 & Y1 & Hst). cbn [ev_step fst snd] in Y1.
+    apply lift_Some in Y1. destruct Y1 as (s1 & E1 & ->). cbn [snd] in *.
+    apply tdvp_run_cons in Hst. destruct Hst as (cs2 & Y2 & Hst). cbn [ev_step fst snd] in Y2.
+    apply lift_Some in Y2. destruct Y2 as (s2 & E2 & ->). cbn [snd] in *.
+    apply tdvp_run_cons in Hst. destruct Hst as (cs3 & Y3 & Hst). cbn [ev_step fst snd] in Y3.
+    apply lift_Some in Y3. destruct Y3 as (s3 & E3 & ->). cbn [snd] in *.
+    apply tdvp_run_cons in Hst. destruct Hst as (cs4' & Y4 & Hst). cbn [ev_step fst snd] in Y4.
+    destruct (contract_nodes s3 (lk a b) b b) as [s'|] eqn:E4; [|discriminate]. injection Y4 as <-.
+    unfold tdvp_run in Hst. cbn in Hst. injection Hst as <-. cbn [fst snd].
+    assert (HL : link_update s a b (lk a b) = Some s') by (unfold link_update; rewrite E1, E2, E3; exact E4).
+    subst a. destruct (sim_adjacent t l0 M s (centre c) b W S Hab) as (na & Ea & Hin & Hb).
+    apply (link_update_dims_kept s (centre c) b (lk (centre c) b) s' na W Ea Hin (same_tree_None _ _ _ S (Flk _ _)) HL).
+  Qed.
+
+  Theorem sim_run_dims tr : blocked tr -> forall c c' s cs',
+    pend c = None -> run t c tr = Some c' -> tinv l0 s (centre c) ->
+    tdvp_run lk tmp (s, Some (centre c)) tr = Some cs' -> dims_kept s (fst cs').
+  Proof.
+    induction 1 as [|e tr Hpl Hb IH|a b f tr Hb IH]; intros c c' s cs' Hp Hrun Hinv Hst.
+    - unfold tdvp_run in Hst. cbn in Hst. injection Hst as <-. apply dims_kept_refl.
+    - apply run_cons_inv in Hrun. destruct Hrun as (c1 & X1 & Hrun).
+      apply tdvp_run_cons in Hst. destruct Hst as (cs1 & Y1 & Hst).
+      destruct (sim_plain t l0 lk tmp M Ftmp e c c1 s cs1 Hpl Hp X1 Hinv Y1) as (Hinv1 & Hs1 & Hp1).
+      pose proof (dims_plain e c c1 s cs1 Hpl Hp X1 Hinv Y1) as D1.
+      destruct cs1 as [s1 oc1]. cbn [fst snd] in *. subst oc1.
+      apply (dims_kept_trans s s1 (fst cs')); [|exact D1|apply (IH c1 c' s1 cs' Hp1 Hrun Hinv1 Hst)].
+      exact (same_tree_trans _ _ _ (same_tree_sym _ _ (ti_same _ _ _ Hinv)) (ti_same _ _ _ Hinv1)).
+    - change (TDVP.Split a b :: Cache a b :: Link a b f :: Absorb a b :: tr)
+        with ([TDVP.Split a b; Cache a b; Link a b f; Absorb a b] ++ tr) in Hrun, Hst.
+      apply (run_app_inv t) in Hrun. destruct Hrun as (c4 & X & Hrun).
+      apply tdvp_run_app in Hst. destruct Hst as (cs4 & Y & Hst).
+      destruct (sim_link t l0 lk tmp M Flk a b f c c4 s cs4 Hp X Hinv Y) as (Hinv4 & Hs4 & Hp4).
+      pose proof (dims_link a b f c c4 s cs4 Hp X Hinv Y) as D4.
+      destruct cs4 as [s4 oc4]. cbn [fst snd] in *. subst oc4.
+      apply (dims_kept_trans s s4 (fst cs')); [|exact D4|apply (IH c4 c' s4 cs' Hp4 Hrun Hinv4 Hst)].
+      exact (same_tree_trans _ _ _ (same_tree_sym _ _ (ti_same _ _ _ Hinv)) (ti_same _ _ _ Hinv4)).
+  Qed.
+End SimDims.
+
+(* ==== part 6 ==== *)
+(* Node.shape = the dimensions of the logical axes *)
+Lemma node_shape_lax s k nk : Inv.wf s -> aget k (nodes s) = Some nk -> node_shape nk = map (wdim s) (lax s k nk).
+Proof.
+  intros W E. unfold node_shape, lax, laxes. rewrite (ni_shape _ _ _ (wf_node s W k nk E)).
+  apply permute_map. intros i Hi. pose proof (wf_axes_length s k nk W E) as HL. pose proof (wf_node_wf s k nk W E) as Hwf.
+  pose proof (nlegs_shape nk Hwf) as HS. destruct Hwf as [Hp _]. pose proof (perm_bound _ _ Hp i Hi) as Hb.
+  unfold wire, id in *. lia.
+Qed.
+
+(* what dims_kept says about Node.shape: the dimension toward every neighbour and the open dimensions, in order *)
+Definition shapes_kept (s s' : store) : Prop :=
+  forall k nk nk', aget k (nodes s) = Some nk -> aget k (nodes s') = Some nk' ->
+    skipn (nvirt nk') (node_shape nk') = skipn (nvirt nk) (node_shape nk) /\
+    forall x i i', neighbour_index nk x = Some i -> neighbour_index nk' x = Some i' ->
+                   nth i' (node_shape nk') 0 = nth i (node_shape nk) 0.
+
+Lemma nth_map_wdim s (l : list wire) i : i < length l -> nth i (map (wdim s) l) 0 = wdim s (nth i l 0).
+Proof. intros H. rewrite (nth_indep _ 0 (wdim s 0)) by (rewrite map_length; exact H). apply map_nth. Qed.
+
+Lemma dims_kept_shapes s s' : Inv.wf s -> Inv.wf s' -> same_tree (nodes s) (nodes s') -> dims_kept s s' -> shapes_kept s s'.
+Proof.
+  intros W W' S [Do De] k nk nk' E E'.
+  rewrite (node_shape_lax s k nk W E), (node_shape_lax s' k nk' W' E'). split.
+  - rewrite !skipn_map. apply (Do k nk nk' E E').
+  - intros x i i' Hi Hi'.
+    pose proof (neighbour_index_bound _ _ _ Hi) as Bi. pose proof (neighbour_index_bound _ _ _ Hi') as Bi'.
+    pose proof (ni_virt _ _ _ (wf_node s W k nk E)) as Vi. pose proof (ni_virt _ _ _ (wf_node s' W' k nk' E')) as Vi'.
+    rewrite !nth_map_wdim by (unfold lax; rewrite laxes_length; lia).
+    destruct (same_tree_some _ _ _ _ S E) as (nk2 & E2 & P2 & C2). rewrite E' in E2. injection E2 as <-.
+    assert (Hx : In x (neighbouring_nodes nk)) by (eapply neighbour_index_In; eauto).
+    apply in_neighbouring in Hx. destruct Hx as [Hp|Hc].
+    + (* toward the parent: leg 0 on both sides *)
+      assert (i = 0) by (unfold neighbour_index in Hi; rewrite Hp, Nat.eqb_refl in Hi; congruence).
+      assert (i' = 0) by (unfold neighbour_index in Hi'; rewrite <- P2, Hp, Nat.eqb_refl in Hi'; congruence).
+      subst. apply (De k nk nk' E E'). rewrite Hp. discriminate.
+    + (* toward a child: the child's parent wire *)
+      destruct (wf_child_parent s k nk x W E Hc) as (nx & Ex & Px).
+      destruct (same_tree_some _ _ _ _ S Ex) as (nx' & Ex' & Px' & _).
+      destruct (ni_par _ _ _ (wf_node s W x nx Ex) k Px) as (pn & j & Ep & _ & Hj & Hw).
+      rewrite E in Ep. injection Ep as <-. rewrite Hi in Hj. injection Hj as <-.
+      destruct (ni_par _ _ _ (wf_node s' W' x nx' Ex') k ltac:(rewrite <- Px'; exact Px)) as (pn' & j' & Ep' & _ & Hj' & Hw').
+      rewrite E' in Ep'. injection Ep' as <-. rewrite Hi' in Hj'. injection Hj' as <-.
+      rewrite <- Hw, <- Hw'. apply (De x nx nx' Ex Ex'). rewrite Px. discriminate.
+Qed.
+
+(* ---- the final statements with the shapes ---------------------------------------------------------------------- *)
+Lemma step_shapes lk tmp t tr s u rest cs' :
+  blocked tr -> sched_ok t tr ->
+  tmatch t (nodes s) -> wfb s = true -> update_path t = Some (u :: rest) -> In u (ids t) ->
+  iso_check (s, Some u) = true ->
+  amem tmp (nodes s) = false -> (forall a b, amem (lk a b) (nodes s) = false) ->
+  tdvp_run lk tmp (s, Some u) tr = Some cs' -> shapes_kept s (fst cs').
+Proof.
+  intros Hb Hok M Wb Hu Hin Hiso Ft Fl Hrun.
+  destruct (step_sound lk tmp t tr s u rest cs' Hb Hok M Wb Hu Hin Hiso Ft Fl Hrun) as (W' & S' & _).
+  destruct (sched_ok_start t tr Hok) as (u' & l' & c0 & c1 & Hu' & C0 & P0 & R & C1 & P1).
+  rewrite Hu in Hu'. injection Hu' as <- <-.
+  pose proof (wfb_wf s Wb) as W.
+  assert (Hinv : tinv (nodes s) s (centre c0)).
+  { rewrite C0. constructor; auto; [apply same_tree_refl|]. apply amem_true. apply (proj2 M). exact Hin. }
+  rewrite <- C0 in Hrun.
+  apply (dims_kept_shapes s (fst cs') W (wfb_wf _ W') S').
+  apply (sim_run_dims t (nodes s) lk tmp M (amem_false_None _ _ Ft) (fun a b => amem_false_None _ _ (Fl a b)) tr Hb c0 c1 s cs' P0 R Hinv Hrun).
+Qed.
+
+Theorem tdvp1_step_t_shapes lk tmp t s u rest cs' :
+  NoDup (ids t) -> 2 <= size t -> tmatch t (nodes s) -> wfb s = true -> update_path t = Some (u :: rest) ->
+  iso_check (s, Some u) = true ->
+  amem tmp (nodes s) = false -> (forall a b, amem (lk a b) (nodes s) = false) ->
+  tdvp1_step_t lk tmp t (s, Some u) = Some cs' -> shapes_kept s (fst cs').
+Proof.
+  intros Hw Hs M Wb Hu Hiso Ft Fl H. unfold tdvp1_step_t in H.
+  destruct (cache_fresh_universal t Hw Hs) as ((tr & Htr & Hok) & _). rewrite Htr in H.
+  apply (step_shapes lk tmp t tr s u rest cs' (blocked_trace1 t tr Htr) Hok M Wb Hu (first_in_ids t u rest Hw Hu) Hiso Ft Fl H).
+Qed.
+
+Theorem tdvp2_step_t_shapes lk tmp t s u rest cs' :
+  NoDup (ids t) -> 2 <= size t -> tmatch t (nodes s) -> wfb s = true -> update_path t = Some (u :: rest) ->
+  iso_check (s, Some u) = true ->
+  amem tmp (nodes s) = false -> (forall a b, amem (lk a b) (nodes s) = false) ->
+  tdvp2_step_t lk tmp t (s, Some u) = Some cs' -> shapes_kept s (fst cs').
+Proof.
+  intros Hw Hs M Wb Hu Hiso Ft Fl H. unfold tdvp2_step_t in H.
+  destruct (cache_fresh_universal t Hw Hs) as (_ & (tr & Htr & Hok) & _). rewrite Htr in H.
+  apply (step_shapes lk tmp t tr s u rest cs' (blocked_trace2 t tr Htr) Hok M Wb Hu (first_in_ids t u rest Hw Hu) Hiso Ft Fl H).
 Qed.
 
